@@ -341,6 +341,11 @@ pub fn run(ctx: &Ctx) -> Report {
                 let a2: Content = (log, other.clone(), x.clone());
                 let b2: Content = (log, ramp(9, 20), y.clone());
                 eval(acc, &a2, &b2, "P2-bh2");
+                // identical block hash 1 (scored but capped at small block sizes), similar block hash 2
+                let same1 = ramp(11, 33);
+                let a3: Content = (log, same1.clone(), x.clone());
+                let b3: Content = (log, same1, y.clone());
+                eval(acc, &a3, &b3, "P2-same-bh1");
             }
         }
         if i == 10 {
@@ -409,7 +414,7 @@ pub fn run(ctx: &Ctx) -> Report {
     rep.set("exhaustive", true);
     rep.set(
         "rule",
-        "P4: ALL (l1, l2, c) with 7 <= l1, l2 <= 64 and 7 <= c <= min(l1, l2): two block hashes of lengths l1 and l2 whose longest common subsequence is exactly the shared part of c symbols (tails over disjoint symbols), i.e. every reachable (length, length, edit distance) triple of the score formula, at equal block sizes (and a quarter of them crossing sizes).  P1: all 31x31 block-size pairs x 24 content templates (identical; identical only after normalisation; similar in one block hash; crossed a.bh2~b.bh1 and the mirror; no common 7-gram; lengths < 7; empty; block hash 2 longer than 32; capacity lengths); P2: relation in {eq, lt, gt} x log in {0..5, 29, 30} x base strings of length {7,8,31,32,33,63,64} against EVERY single edit (insert / replace with 3 symbols / delete at every position) and strided double edits, in the block hash 1 and block hash 2 positions; P3: run insertion and rotations.  Every pair is evaluated through up to 19 entry points (string function with raw / normalised / mixed spellings, FuzzyHash / LongFuzzyHash compare and compare_unequal, reusable target initialised by init_from (dirty) / From from short, long, dual operands, compare_near_eq / compare_unequal*), all of which must equal the oracle (DP edit distance + naive 7-gram scan + the ssdeep formula and cap).",
+        "P4: ALL (l1, l2, c) with 7 <= l1, l2 <= 64 and 7 <= c <= min(l1, l2): two block hashes of lengths l1 and l2 whose longest common subsequence is exactly the shared part of c symbols (tails over disjoint symbols), i.e. every reachable (length, length, edit distance) triple of the score formula, at equal block sizes (and a quarter of them crossing sizes).  P1: all 31x31 block-size pairs x 24 content templates (identical; identical only after normalisation; similar in one block hash; crossed a.bh2~b.bh1 and the mirror; no common 7-gram; lengths < 7; empty; block hash 2 longer than 32; capacity lengths); P2: relation in {eq, lt, gt} x log in {0..5, 29, 30} x base strings of length {7,8,31,32,33,63,64} against EVERY single edit (insert / replace with 3 symbols / delete at every position) and strided double edits, in the block hash 1 and block hash 2 positions (the latter also with an identical block hash 1 of 11 symbols, whose capped score must not hide a better block hash 2); P3: run insertion and rotations.  Every pair is evaluated through up to 19 entry points (string function with raw / normalised / mixed spellings, FuzzyHash / LongFuzzyHash compare and compare_unequal, reusable target initialised by init_from (dirty) / From from short, long, dual operands, compare_near_eq / compare_unequal*), all of which must equal the oracle (DP edit distance + naive 7-gram scan + the ssdeep formula and cap).",
     );
     rep
 }
